@@ -58,8 +58,8 @@ def run(ctx):
         rows = P.table(ctx, fnp, ['self', 'make_entry'])
         site = ctx.site(fnp)
         G = '(self.next_channel_id <= self.channel_max)'
-        ENT = 'std::collections::HashMap::entry(self.slots, channel_id)'
-        SNAP = 'let channel_id = (self.next_channel_id as u16)'
+        ENT = 'std::collections::HashMap::entry(self.slots, $s0)'
+        SNAP = 'let $s0 = (self.next_channel_id as u16)'
         cnt = [x for x in rows if x.conds and x.conds[0] == (G, True)]
         fb = [x for x in rows if x.conds and x.conds[0] == (G, False)]
         r.check('rows', len(cnt) == 2 and len(fb) == 2, site, built=[x.row() for x in rows], expected='counter loop (occupied/vacant) and fallback loop (occupied/vacant)')
@@ -74,7 +74,7 @@ def run(ctx):
         cv = [x for x in cnt if x.conds[-1][1] == 'std::collections::hash_map::Entry::Vacant(_)']
         r.check('counter:occupied-skips', len(co) == 1 and co[0].done == 'iterate' and not [e for e in co[0].effects if 'insert' in e or 'make_entry' in e], site, built=[x.row() for x in co],
                 expected='an occupied id is skipped (continue), never overwritten')
-        r.check('counter:vacant-inserts', len(cv) == 1 and 'value:make_entry(channel_id)' in cv[0].effects and cv[0].done == 'return' and cv[0].value_str() == 'Ok(value:make_entry(channel_id)?.1)',
+        r.check('counter:vacant-inserts', len(cv) == 1 and 'value:make_entry($s0)' in cv[0].effects and cv[0].done == 'return' and cv[0].value_str() == 'Ok(value:make_entry($s0)?.1)',
                 site, built=[x.row() for x in cv])
         POP = '<std::option::Option<T> as snafu::OptionExt<T>>::context(indexmap::IndexSet::pop(self.freed_channel_ids), errors::ExhaustedChannelIdsSnafu)?'
         fo = [x for x in fb if x.conds[-1] == ('std::collections::HashMap::entry(self.slots, %s)' % POP, 'std::collections::hash_map::Entry::Occupied(_)')]
